@@ -28,7 +28,7 @@ def pde_case(kind, call, branch=None):
 
     def fn(c):
         K = api.real(c, "K", pos=True)
-        s = api.tensor(c, "s", (1,), lo=-1, hi=1) if c.mode == "concrete" else api.tensor(c, "s", (1,))
+        s = api.tensor(c, "s", (1,))
         t = api.tensor(c, "t", (1,), pos=True)
         v = api.tensor(c, "v", (1,), pos=True)
         if kind in ("ambinary", "lookback"):
